@@ -214,6 +214,39 @@ Section Slices.
     - right. reflexivity.
   Qed.
 
+  (* 3''. THE KEY-PREFIX LEMMA (property C13).  A slice without spare capacity (cap = len): append
+         writes NO cell of ANY existing array - every array other than the new one keeps its whole
+         content - and a non-empty append returns a slice over the new array.  [fresh] is the id the
+         allocator hands out, so the only thing asked of it is to differ from the arrays in use. *)
+  Theorem append_fresh_when_full h fresh extra s xs : s_cap s = s_len s ->
+    (forall j, j <> fresh -> fst (go_append h fresh extra s xs) j = h j)
+    /\ (xs <> [] -> s_arr (snd (go_append h fresh extra s xs)) = fresh
+                   /\ s_off (snd (go_append h fresh extra s xs)) = 0)
+    /\ (xs = [] -> snd (go_append h fresh extra s xs) = s).
+  Proof.
+    intros Hfull. split; [|split].
+    - intros j Hj. destruct (Nat.eq_dec j (s_arr s)) as [->|Hne].
+      + apply append_full_no_write; [lia|auto].
+      + apply append_frame; auto.
+    - intros Hne. unfold go_append.
+      assert (length xs > 0) by (destruct xs; [congruence|simpl; lia]).
+      replace (s_len s + length xs <=? s_cap s) with false by (symmetry; apply Nat.leb_gt; lia).
+      cbn [snd s_arr s_off]. split; reflexivity.
+    - intros ->. unfold go_append. cbn [length]. rewrite Nat.add_0_r.
+      replace (s_len s <=? s_cap s) with true by (symmetry; apply Nat.leb_le; lia).
+      cbn [snd]. destruct s; reflexivity.
+  Qed.
+
+  (* 3'''. A slice over an array that nobody else can reach (freshly made, decoded from storage,
+          result of an earlier allocating append): whatever its capacity, the append is invisible
+          to every slice over any other array. *)
+  Theorem append_private_invisible h fresh extra s xs t :
+    s_arr t <> s_arr s -> s_arr t <> fresh ->
+    sview (fst (go_append h fresh extra s xs)) t = sview h t.
+  Proof.
+    intros H1 H2. unfold sview. rewrite append_frame by auto. reflexivity.
+  Qed.
+
   (* 4. the result views what it should, and is well formed *)
   Theorem append_view h fresh extra s xs : wf h s ->
     sview (fst (go_append h fresh extra s xs)) (snd (go_append h fresh extra s xs)) = sview h s ++ xs.
@@ -338,3 +371,5 @@ Print Assumptions append_wf.
 Print Assumptions subslice_append_writes_parent.
 Print Assumptions sub_slice3_full_is_safe.
 Print Assumptions append_preserves_all_views_refuted.
+Print Assumptions append_fresh_when_full.
+Print Assumptions append_private_invisible.
